@@ -7,6 +7,7 @@ import (
 	"os"
 
 	"verif/harness/apix"
+	"verif/harness/bridgex"
 	"verif/harness/cachex"
 	"verif/harness/clockx"
 	"verif/harness/concx"
@@ -29,6 +30,8 @@ import (
 var commands = map[string]func(args []string){}
 
 func init() {
+	commands["bridge"] = bridgex.Run
+	commands["bridge-worker"] = bridgex.Worker
 	commands["host"] = hostx.Run
 	commands["api"] = apix.Run
 	commands["conc"] = concx.Run
